@@ -1,6 +1,7 @@
 package rules
 
 import (
+	"go/token"
 	"sort"
 	"strings"
 
@@ -34,14 +35,35 @@ func checkAccessorKeyPairs(c *core.Ctx, rule, pkg string, except map[string]stri
 		names = append(names, n)
 	}
 	sort.Strings(names)
+	// accessors of the package: names for which both a reader and a writer exist
+	isAccessor := func(n string) bool {
+		l := strings.ToLower(n)
+		for _, verb := range []string{"get", "put", "set"} {
+			if !strings.HasPrefix(l, verb) || len(n) <= 3 {
+				continue
+			}
+			suffix := n[3:]
+			hasGet := byName["get"+suffix] != nil || byName["Get"+suffix] != nil
+			hasPut := byName["put"+suffix] != nil || byName["Put"+suffix] != nil || byName["set"+suffix] != nil || byName["Set"+suffix] != nil
+			if hasGet && hasPut {
+				return true
+			}
+		}
+		return false
+	}
 	own := func(fn *ssa.Function, op string) (map[string]bool, bool) {
-		sites, err := eng.KeySitesIn(c.P, fn, 0)
+		sites, err := eng.KeySitesIn(c.P, fn, 1)
 		if err != nil {
 			return nil, false
 		}
 		out := map[string]bool{}
 		for _, s := range sites {
-			if s.Fn != fn || s.Op != op {
+			if s.Op != op {
+				continue
+			}
+			// the accessor's own access, or one it makes through a private worker of the package that is not
+			// itself an accessor of some record (`putCounter(native, kind, v)` shared by two counters)
+			if s.Fn != fn && (s.Fn.Pkg != fn.Pkg || token.IsExported(s.Fn.Name()) || isAccessor(s.Fn.Name())) {
 				continue
 			}
 			out[s.Shape.Canon()] = true
